@@ -480,6 +480,15 @@ def m_char_class(it, recv, args, e, mod, discard):
     return it.text.char_pred(it, e["method"], it.resolve(recv))
 
 
+@method("len_utf8")
+def m_len_utf8(it, recv, args, e, mod, discard):
+    from .text import utf8_width
+    c = it.resolve(recv)
+    if not isinstance(c, Char):
+        raise InternalError("len_utf8 on %r" % (c,))
+    return utf8_width(c.v)
+
+
 @method("char_indices", "as_bytes", "split", "trim_end", "find", "repeat", "next_boundary")
 def m_text(it, recv, args, e, mod, discard):
     if it.text is None:
